@@ -500,12 +500,17 @@ func countClass(K int) string {
 
 // ---------------------------------------------------------------- case lists
 
-// operandKeys draws K distinct keys of the kinds that deserialize quickly (no P-224).
+// operandKeys draws K distinct keys; the kinds that deserialize fastest are preferred and
+// P-224 (8 ms per key) is left out: the key types are not what this family is about.
 func operandKeys(rng *vf.RNG, K int) []*txgen.Key {
 	seen := map[*txgen.Key]bool{}
 	var out []*txgen.Key
 	for len(out) < K {
-		k := txgen.PickKind(rng, txgen.Kind(1+rng.Intn(int(txgen.NumKinds)-1)))
+		kind := txgen.Kind(1 + rng.Intn(int(txgen.NumKinds)-1))
+		if rng.Chance(60) {
+			kind = []txgen.Kind{txgen.Ed25519, txgen.ECDSAP256}[rng.Intn(2)]
+		}
+		k := txgen.PickKind(rng, kind)
 		if !seen[k] {
 			seen[k] = true
 			out = append(out, k)
@@ -723,8 +728,11 @@ func operandRequirements() {
 	}
 	for _, c := range classes {
 		suffixes := []string{"", "|padded", "|padded|reversed"}
-		if c == "b+k*2^64" { // already 9 bytes long
+		switch c {
+		case "b+k*2^64": // already 9 bytes long
 			suffixes = suffixes[:1]
+		case "b<<8s": // its minimal spelling is the reversed padded spelling of b
+			suffixes = suffixes[1:]
 		}
 		for _, suffix := range suffixes {
 			r.Require("operand_m_class_"+c+suffix, 10)
